@@ -44,13 +44,111 @@ func c29ShapeLeftSchemaRightDelete(base, ours, theirs *mSide, sc *mSchemaChange,
 	return false
 }
 
+// Finding C29-byte-equal-rows-different-schemas: tree.ThreeWayDiffer.Next
+// (go/store/prolly/tree/three_way_differ.go, state dsMatch) treats two edits of one key as
+// convergent when the value tuples are byte-equal, although ThreeWayDiffInfo documents that with
+// LeftAndRightSchemasDiffer "there cannot be any convergent edits, even if two rows in Left and
+// Right have the same bytes" (the field is stored and never read). After a one-sided DROP COLUMN /
+// ADD COLUMN / reorder, tuples of different meaning can have equal bytes (trailing NULL fields are
+// not stored): the rows are merged as "both sides made the same change", ours is kept, theirs is
+// lost without a conflict, and the swapped merge keeps the other row.
+const c29FindByteEqual = "C29-byte-equal-rows-different-schemas"
+
+// c29ShapeByteEqual: some key was added on both sides or modified on both sides, the rows differ
+// by column name, and their stored value tuples (non-pk cells in physical order, trailing NULLs
+// dropped) may be byte-equal.
+func c29ShapeByteEqual(base, ours, theirs *mSide, sc *mSchemaChange) bool {
+	if sc == nil {
+		return false
+	}
+	enc := func(s *mSide, r vsql.Row) (vals []string, kinds []mKind) {
+		type cell struct {
+			ord  int
+			v    string
+			kind mKind
+		}
+		ords := s.valueOrdinals()
+		cells := make([]cell, len(ords))
+		for n, o := range ords {
+			i := s.colIdx(n)
+			cells[o] = cell{o, r[i], s.Cols[i].Kind}
+		}
+		for _, c := range cells {
+			vals = append(vals, c.v)
+			kinds = append(kinds, c.kind)
+		}
+		for len(vals) > 0 && vals[len(vals)-1] == mNull {
+			vals, kinds = vals[:len(vals)-1], kinds[:len(kinds)-1]
+		}
+		return vals, kinds
+	}
+	sameByName := func(a *mSide, ra vsql.Row, b *mSide, rb vsql.Row) bool {
+		for i, c := range a.Cols {
+			j := b.colIdx(c.Name)
+			if j < 0 {
+				if ra[i] != mNull {
+					return false
+				}
+				continue
+			}
+			if ra[i] != rb[j] {
+				return false
+			}
+		}
+		for j, c := range b.Cols {
+			if a.colIdx(c.Name) < 0 && rb[j] != mNull {
+				return false
+			}
+		}
+		return true
+	}
+	fourByte := func(k mKind) bool { return k == mInt || k == mDate }
+	for _, k := range ours.T.Keys() {
+		ro := ours.T.Rows[k]
+		rt, ok := theirs.T.Rows[k]
+		if !ok {
+			continue
+		}
+		if sameByName(ours, ro, theirs, rt) {
+			continue
+		}
+		vo, ko := enc(ours, ro)
+		vt, kt := enc(theirs, rt)
+		if len(vo) != len(vt) {
+			continue
+		}
+		maybe := true
+		for i := range vo {
+			switch {
+			case vo[i] == mNull || vt[i] == mNull:
+				if vo[i] != vt[i] {
+					maybe = false
+				}
+			case ko[i] == kt[i]:
+				if vo[i] != vt[i] {
+					maybe = false
+				}
+			default:
+				if !(fourByte(ko[i]) && fourByte(kt[i])) {
+					maybe = false
+				}
+			}
+		}
+		if maybe {
+			return true
+		}
+	}
+	return false
+}
+
 type c29Pinned struct {
 	name    string
 	finding string
 	setup   []string // on base
 	ours    []string
 	theirs  []string
-	want    []string // rows of SELECT * FROM t ORDER BY pk after merging theirs into ours ("" separated by ,)
+	want    []string // rows of SELECT * FROM t ORDER BY pk after merging theirs into ours
+	wantConflicts int
 }
 
 var c29PinnedCases = []c29Pinned{
@@ -61,6 +159,26 @@ var c29PinnedCases = []c29Pinned{
 		ours:    []string{"ALTER TABLE t ADD COLUMN n1 INT AFTER pk"},
 		theirs:  []string{"DELETE FROM t WHERE pk = 1"},
 		want:    []string{"2,NULL,2,2"},
+	},
+	{
+		// ours: c2 7 -> 5 (value tuple [5]); theirs: c1 1 -> 5, c2 7 -> NULL (value tuple [5], the
+		// trailing NULL is not stored): the same cell c2 was changed to 5 and to NULL
+		name:          "byte_equal_modify_after_drop_column",
+		finding:       c29FindByteEqual,
+		setup:         []string{"CREATE TABLE t (pk INT PRIMARY KEY, c1 INT, c2 INT)", "INSERT INTO t VALUES (1,1,7)"},
+		ours:          []string{"ALTER TABLE t DROP COLUMN c1", "UPDATE t SET c2 = 5 WHERE pk = 1"},
+		theirs:        []string{"UPDATE t SET c1 = 5, c2 = NULL WHERE pk = 1"},
+		want:          []string{"1,5"},
+		wantConflicts: 1,
+	},
+	{
+		name:          "byte_equal_insert_after_drop_column",
+		finding:       c29FindByteEqual,
+		setup:         []string{"CREATE TABLE t (pk INT PRIMARY KEY, c1 INT, c2 INT)"},
+		ours:          []string{"ALTER TABLE t DROP COLUMN c1", "INSERT INTO t VALUES (0,0)"},
+		theirs:        []string{"INSERT INTO t VALUES (0,0,NULL)"},
+		want:          []string{"0,0"},
+		wantConflicts: 1,
 	},
 }
 
@@ -92,8 +210,9 @@ func c29RunPinned(t *testing.T, env *mEnv) {
 				for _, r := range got.Data {
 					rows = append(rows, strings.ReplaceAll(strings.Join(r, ","), vsql.Null, "NULL"))
 				}
-				if !vsql.EqualStrings(rows, pc.want) {
-					fail = fmt.Sprintf("merged rows %v, want %v", rows, pc.want)
+				n, _ := se.Scalar(t, "SELECT COUNT(*) FROM dolt_conflicts_t")
+				if !vsql.EqualStrings(rows, pc.want) || n != fmt.Sprint(pc.wantConflicts) {
+					fail = fmt.Sprintf("merged rows %v with %s conflicts, want %v with %d conflicts", rows, n, pc.want, pc.wantConflicts)
 				}
 			}
 			_ = se.Exec("CALL dolt_merge('--abort')")
